@@ -272,63 +272,84 @@ CHECKS = {
 }
 
 EXTRA = {'C01': 'Each configuration additionally runs with failing appenders (none / all / one): deliveries are unchanged '
-        'and the error handler is called once per failed delivery (Reported).',
+        'and the error handler is called once per failed delivery (Reported). Strict and lossy builds alternate; a '
+        'third of the builds give the root its level afterwards through Config::root_mut().',
  'C03': 'Sinks are Append implementors and log::Log implementors attached through the blanket adapter (whose own '
-        'enabled() says no); builder styles filter()/filters() are mixed.',
+        'enabled() says no); builder styles filter()/filters() are mixed. The real ThresholdFilter takes Neutral / '
+        'Reject positions inside scripted chains; a child process counts the calls of the handler given to '
+        'init_config_with_err_handler across reconfigurations.',
+ 'C04': ' Truncate-mode scenarios get a successor appender as well.',
  'C05': 'The replay materialises every behaviour five times: 10-byte units with DeleteRoller, 400-byte units with a '
         'two-chunk encoder (straddling the 1 KiB BufWriter), 16-byte units with gzip archives and an appender built '
         'from a configuration value, 12-byte units with the index in a directory component of the archive pattern, '
         'and 14-byte units with the active file and the archives on different filesystems (rename fails, copy '
         'fallback). Rolling.tla also has encoder failures (EncFail: part of a record written, then Err) with the '
         'BufWriter capacity as a parameter. Recorded traces of 2-4 real threads (and one long lifetime of 320 / 2400 '
-        'records per batch) are validated against the same specification (Trace_Rolling.tla).',
+        'records per batch) are validated against the same specification (Trace_Rolling.tla). Rolling.tla also has '
+        'archives found at first build (PreArch), a user-defined roller that leaves the file in place (noop), and '
+        'write calls cut short by the operating system (EncFail with os).',
  'C06': 'The replay materialises every behaviour five times: 10-byte units with DeleteRoller, 400-byte units with a '
         'two-chunk encoder (straddling the 1 KiB BufWriter), 16-byte units with gzip archives and an appender built '
         'from a configuration value, 12-byte units with the index in a directory component of the archive pattern, '
         'and 14-byte units with the active file and the archives on different filesystems (rename fails, copy '
         'fallback). Rolling.tla also has encoder failures (EncFail: part of a record written, then Err) with the '
-        'BufWriter capacity as a parameter.',
+        'BufWriter capacity as a parameter. Write calls cut short by the operating system are replayed under a file '
+        'size limit (600-byte units, one history at a time); limits at the top of the u64 range; recorded '
+        'multi-thread traces.',
  'C07': 'A .gz archive must be exactly one gzip member (bytes after it count as corruption); windows are also placed '
-        'at the top of the u32 index range; rollers are built through the builder and from configuration values.',
+        'at the top of the u32 index range; rollers are built through the builder and from configuration values. A '
+        'seventh template has the rolled file on another filesystem; windows of four are in the quick tier.',
  'C08': 'The replay materialises every behaviour five times: 10-byte units with DeleteRoller, 400-byte units with a '
         'two-chunk encoder (straddling the 1 KiB BufWriter), 16-byte units with gzip archives and an appender built '
         'from a configuration value, 12-byte units with the index in a directory component of the archive pattern, '
         'and 14-byte units with the active file and the archives on different filesystems (rename fails, copy '
         'fallback). Rolling.tla also has encoder failures (EncFail: part of a record written, then Err) with the '
-        'BufWriter capacity as a parameter.',
+        'BufWriter capacity as a parameter. Instances with archives found at first build (PreArch).',
  'C09': "DateZone.tla adds the environment's local zone as state: histories in which the zone changes between the "
         'construction of an encoder and its use and between two uses (4 POSIX zones, 4 date kinds) are replayed on '
-        'fresh threads and, for a few, on a single thread.',
+        'fresh threads and, for a few, on a single thread. Fragments.tla (the message is the concatenation of the '
+        'fragments it arrives in), FieldWidths.tla (record fields at the edges of their types under width specs) and '
+        "DateZone's logical clock (fractional-second dates are read per encode) run in the same check.",
  'C10': 'Every length class is instantiated by code points at the edges of its UTF-8 range (first / last lead byte, '
         'first / last continuation byte); fill characters of 1, 2 and 3 bytes; every third case builds the encoder '
-        'from a configuration value.',
+        'from a configuration value. Every third case has multi-byte literal text in front of the spec; an earlier '
+        'record of the same thread fails half-way before each case.',
  'C11': 'The curated family includes alignment nested in alignment (re-entrant width writers); every fourth case '
-        'encodes into a sink that accepts only a prefix per write call.',
+        'encodes into a sink that accepts only a prefix per write call. FieldWidths.tla runs in the same check; the '
+        'family has absurd widths on literal-only and nested groups.',
  'C12': 'Sinks accept everything, one byte, three bytes or 7/1/64 bytes per write call; every other record uses an '
         'encoder built from a configuration value; an earlier record of the same thread fails part-way into its '
-        'sink.',
+        'sink. A style request from the JSON encoder is a violation; Fragments.tla runs in the same check; the '
+        'two-byte class includes C1 controls.',
  'C13': 'The declarations reach the builders one at a time, in bulk and in mixtures of both (appender()/appenders(), '
-        'logger()/loggers(), and the same for references).',
+        'logger()/loggers(), and the same for references). Every other case renames the appender namespace onto the '
+        'strings logger names are made of.',
  'C14': 'Registry.tla (insert / clone / lookup of deserializers per trait and kind, 192k histories) is replayed on '
-        'log4rs::config::Deserializers in the same run.',
+        'log4rs::config::Deserializers in the same run. Wrong-typed kinds at every level; a zero limit as a bare '
+        'integer; ConfigFormat.tla (which reader a file name gets) runs in the same check.',
  'C15': 'The refresh thread itself is covered impl->spec: scripted lifetimes of the real init_file thread (hook '
         'reloader.sleep) are validated as traces against Reloader.tla (Trace_Reloader.tla): every sleep lasts the '
-        'rate of the last applied file.',
+        'rate of the last applied file. A directed scenario parks a logging thread inside Logger::enabled (hook '
+        'enabled.loaded); the swap scenarios run under a watchdog (a call that never returns is a violation).',
  'C16': 'Every other history builds the whole appender (compound policy, trigger kind `time`) from a configuration '
-        'value.',
+        'value. Random-delay bounds up to u64::MAX.',
  'C17': 'The replay materialises every behaviour five times: 10-byte units with DeleteRoller, 400-byte units with a '
         'two-chunk encoder (straddling the 1 KiB BufWriter), 16-byte units with gzip archives and an appender built '
         'from a configuration value, 12-byte units with the index in a directory component of the archive pattern, '
         'and 14-byte units with the active file and the archives on different filesystems (rename fails, copy '
         'fallback). Rolling.tla also has encoder failures (EncFail: part of a record written, then Err) with the '
         'BufWriter capacity as a parameter. Recorded traces of threads released together by a barrier, and one long '
-        'lifetime of 320 / 2400 records per batch, are validated against Rolling.tla (Trace_Rolling.tla).',
+        'lifetime of 320 / 2400 records per batch, are validated against Rolling.tla (Trace_Rolling.tla). In one '
+        'materialisation the configured path is a symbolic link to the file found at start-up.',
  'C18': 'After every append the child writes a marker to the descriptor itself: each record must be on the stream '
         'when its append returns; every row runs with builder- and configuration-built appenders, with and without a '
-        'final newline in the pattern.',
+        'final newline in the pattern. A fourth pattern variant logs a 2 KiB literal behind a newline; after the '
+        'first appender the stream is re-pointed at a file and a second appender is built.',
  'C19': 'A fifth site rolls three times through a window of two with the index before the reference (an expansion '
-        "containing '/' puts the index into a directory component).",
- 'C20': 'Junk units include long ones (7..257 letters, a 2-, 3- or 4-byte letter at every place).'}
+        "containing '/' puts the index into a directory component). The environment holds a variable with an "
+        'ill-formed name.',
+ 'C20': 'Junk units include long ones (7..257 letters, a 2-, 3- or 4-byte letter at every place). Junk units with '
+        'doubled plural endings and one letter too many.'}
 
 NOT_YET = "check not built yet in this round (planned, see DESIGN.md section 7)"
 
